@@ -1139,6 +1139,15 @@ class Compiler:
         local_vars_set = set(self.locals)
         if isinstance(node.body, BlockStatement):
             self._collect_var_decls(node.body, local_vars_set)
+        # Update locals list with collected vars, so that functions nested in an
+        # initialiser already see the variable being declared (var f = function(){ f() })
+        for var in local_vars_set:
+            if var not in self.locals:
+                self.locals.append(var)
+
+        # Push current locals to outer scope stack BEFORE finding free vars
+        # This is needed so nested functions can find their outer variables
+        self._outer_locals.append(self.locals[:])
 
         # Find variables captured by inner functions
         captured = self._find_captured_vars(node.body, local_vars_set)
@@ -1147,6 +1156,9 @@ class Compiler:
         # Find all free variables needed
         required_free = self._find_required_free_vars(node.body, local_vars_set)
         self._free_vars = list(required_free)
+
+        # Pop the outer scope we pushed
+        self._outer_locals.pop()
 
         if node.expression:
             # Expression body: compile expression and return it
